@@ -242,3 +242,121 @@ def f64_bits(rng):
         return rng.choice([0, 1 << 63, 0x7FF0000000000000, 0xFFF0000000000000, 0x7FF8000000000000,
                            0x7FF8000000000001, 0xFFF8123456789ABC, 1, 0x3FF0000000000000, 0x7FEFFFFFFFFFFFFF])
     return rng.getrandbits(64)
+
+# ---------------------------------------------------------------- values
+class ValueGen:
+    """Random conforming values (as evalue s-expressions: value + encoder layout choices)."""
+    def __init__(self, rng, nodes, max_depth=6, big=False, layouts=True, decimal_limits=True):
+        self.rng, self.nodes = rng, nodes
+        self.max_depth = max_depth
+        self.big = big
+        self.layouts = layouts
+        self.decimal_limits = decimal_limits
+
+    def terminating(self, k, seen=()):
+        """can a value of node k be finite without descending further than necessary"""
+        return True
+
+    def blocks(self, items):
+        """split a list of item sexps into blocks with random signs"""
+        rng = self.rng
+        if not items:
+            return ""
+        if not self.layouts or rng.random() < 0.4:
+            return " (blk 0 %s)" % " ".join(items)
+        out, i = [], 0
+        while i < len(items):
+            n = rng.randint(1, max(1, len(items) - i))
+            out.append("(blk %d %s)" % (rng.randint(0, 1), " ".join(items[i:i + n])))
+            i += n
+        return " " + " ".join(out)
+
+    def gen(self, k, depth=0):
+        rng = self.rng
+        n = self.nodes[k]
+        kind = n.kind()
+        deep = depth >= self.max_depth
+        if kind == "null":
+            return "null"
+        if kind == "boolean":
+            return "(bool %d)" % rng.randint(0, 1)
+        if kind in ("int", "date", "time-millis"):
+            return "(int %d)" % rand_int(rng, -2**31, 2**31 - 1)
+        if kind in ("long", "time-micros", "timestamp-millis", "timestamp-micros"):
+            return "(long %d)" % rand_int(rng, -2**63, 2**63 - 1)
+        if kind == "float":
+            return "(float %d)" % f32_bits(rng)
+        if kind == "double":
+            return "(double %d)" % f64_bits(rng)
+        if kind == "bytes":
+            return "(bytes %s)" % hx(rand_bytes(rng))
+        if kind in ("string", "uuid"):
+            return "(string %s)" % hx(rand_str(rng))
+        if kind == "array":
+            cnt = 0 if deep else rng.choice([0, 0, 1, 2, 3, 5])
+            return "(array%s)" % self.blocks([self.gen(n.items, depth + 1) for _ in range(cnt)])
+        if kind == "map":
+            cnt = 0 if deep else rng.choice([0, 0, 1, 2, 3])
+            return "(map%s)" % self.blocks(["(%s %s)" % (hx(rand_str(rng, 4)), self.gen(n.values, depth + 1))
+                                            for _ in range(cnt)])
+        if kind == "union":
+            idxs = list(range(len(n.variants)))
+            if deep:
+                # prefer branches that terminate quickly
+                simple = [i for i in idxs if self.nodes[n.variants[i]].t not in ("record", "array", "map", "union")]
+                if simple:
+                    idxs = simple
+            if not idxs:
+                return None
+            i = rng.choice(idxs)
+            v = self.gen(n.variants[i], depth + 1)
+            return None if v is None else "(union %d %s)" % (i, v)
+        if kind == "record":
+            fs = [self.gen(fk, depth + 1) for _, fk in n.fields]
+            if any(f is None for f in fs):
+                return None
+            return "(record%s)" % "".join(" " + f for f in fs)
+        if kind == "enum":
+            return "(enum %d)" % rng.randrange(len(n.symbols))
+        if kind == "fixed":
+            return "(fixed %s)" % hx(rand_bytes(rng, n.size))
+        if kind == "decimal":
+            if n.t == "fixed":
+                nb = min(n.size, 12 if self.decimal_limits else 16)
+                if nb == 0:
+                    return "(decimal 0 0)"
+                lim = 2 ** (8 * nb - 1)
+                m = rng.choice([0, 1, -1, lim - 1, -lim, rng.randint(-lim, lim - 1)])
+                if n.size > 16:
+                    return None
+                return "(decimal %d 0)" % m
+            lim = 2 ** 95 if self.decimal_limits else 2 ** 127
+            m = rng.choice([0, 1, -1, 127, 128, -128, -129, 255, 256, 32767, 32768, -32768, -32769,
+                            lim - 1, -lim, rng.randint(-lim, lim - 1), rng.randint(-10**6, 10**6)])
+            pad = rng.choice([0, 0, 0, 1, 2]) if self.layouts else 0
+            return "(decimal %d %d)" % (m, pad)
+        if kind == "big-decimal":
+            lim = 2 ** 95
+            m = rng.choice([0, 1, -1, 128, -129, lim - 1, -lim, rng.randint(-lim, lim - 1), rng.randint(-10**6, 10**6)])
+            return "(bigdecimal %d %d %d)" % (m, rng.choice([0, 0, 1, 2, 7, 28]), rng.choice([0, 0, 1]) if self.layouts else 0)
+        if kind == "duration":
+            return "(duration %d %d %d)" % tuple(rng.choice([0, 1, 2**32 - 1, rng.getrandbits(32)]) for _ in range(3))
+        raise ValueError(kind)
+
+def schema_and_value(rng, **kw):
+    """a valid schema together with a conforming value (evalue sexp); retries until one exists"""
+    for _ in range(50):
+        g = SchemaGen(rng, max_nodes=kw.get("max_nodes", rng.choice([2, 5, 10, 16])),
+                      max_depth=kw.get("max_depth", rng.choice([1, 3, 5])))
+        nodes = g.build()
+        vg = ValueGen(rng, nodes, layouts=kw.get("layouts", True))
+        v = vg.gen(0)
+        if v is not None:
+            return nodes, v
+    raise RuntimeError("no value")
+
+def erase_borrow_text(s):
+    import re
+    s = re.sub(r"\(bstr -?\d+ \d+ (x[0-9a-f]*)\)", r"(str \1)", s)
+    s = re.sub(r"\(bbytes -?\d+ \d+ (x[0-9a-f]*)\)", r"(bytes \1)", s)
+    return s
